@@ -47,13 +47,19 @@ static PEAK_NAMED: std::sync::atomic::AtomicUsize = std::sync::atomic::AtomicUsi
 pub fn live_named() -> usize { LIVE_NAMED.load(Ordering::SeqCst) }
 /// Largest value `live_named` has had since `reset_named`.
 pub fn peak_live_named() -> usize { PEAK_NAMED.load(Ordering::SeqCst) }
-pub fn reset_named() { LIVE_NAMED.store(0, Ordering::SeqCst); PEAK_NAMED.store(0, Ordering::SeqCst); }
+pub fn reset_named() { LIVE_NAMED.store(0, Ordering::SeqCst); PEAK_NAMED.store(0, Ordering::SeqCst); SPAWNED_NAMED.store(0, Ordering::SeqCst); LIVE_SEQS.lock().unwrap().clear(); }
+static SPAWNED_NAMED: std::sync::atomic::AtomicUsize = std::sync::atomic::AtomicUsize::new(0);
+static LIVE_SEQS: std::sync::Mutex<Vec<usize>> = std::sync::Mutex::new(Vec::new());
+/// Number of named threads spawned since `reset_named` (each gets the next sequence number).
+pub fn spawned_named() -> usize { SPAWNED_NAMED.load(Ordering::SeqCst) }
+/// Number of live named threads whose sequence number is below `seq` (i.e. that were spawned before `spawned_named()` returned `seq`).
+pub fn live_named_before(seq: usize) -> usize { LIVE_SEQS.lock().unwrap().iter().filter(|s| **s < seq).count() }
 
-struct SetOnDrop(Arc<AtomicBool>, bool);
+struct SetOnDrop(Arc<AtomicBool>, bool, usize);
 impl Drop for SetOnDrop {
     fn drop(&mut self) {
         emit(if panicking() { "exit panic" } else { "exit ok" });
-        if self.1 { LIVE_NAMED.fetch_sub(1, Ordering::SeqCst); }
+        if self.1 { LIVE_NAMED.fetch_sub(1, Ordering::SeqCst); LIVE_SEQS.lock().unwrap().retain(|s| *s != self.2); }
         self.0.store(true, Ordering::SeqCst);
     }
 }
@@ -69,11 +75,11 @@ impl<T> JoinHandle<T> {
     pub fn verif_agent(&self) -> Option<usize> { self.agent.get().copied() }
 }
 
-fn wrap_spawn<F, T>(f: F, finished: Arc<AtomicBool>, agent: Arc<std::sync::OnceLock<usize>>, named: bool) -> impl FnOnce() -> T + Send + 'static
+fn wrap_spawn<F, T>(f: F, finished: Arc<AtomicBool>, agent: Arc<std::sync::OnceLock<usize>>, named: bool, seq: usize) -> impl FnOnce() -> T + Send + 'static
 where F: FnOnce() -> T + Send + 'static, T: Send + 'static {
     move || {
         let _ = agent.set(agent_id());
-        let _fin = SetOnDrop(finished, named);
+        let _fin = SetOnDrop(finished, named, seq);
         emit("start");
         f()
     }
@@ -94,12 +100,15 @@ impl Builder {
     where F: FnOnce() -> T + Send + 'static, T: Send + 'static {
         let finished = Arc::new(AtomicBool::new(false));
         let agent = Arc::new(std::sync::OnceLock::new());
+        let mut seq = usize::MAX;
         if self.named {
             // counted from the moment the scheduler owns the thread
             let live = LIVE_NAMED.fetch_add(1, Ordering::SeqCst) + 1;
             PEAK_NAMED.fetch_max(live, Ordering::SeqCst);
+            seq = SPAWNED_NAMED.fetch_add(1, Ordering::SeqCst);
+            LIVE_SEQS.lock().unwrap().push(seq);
         }
-        let inner = self.inner.spawn(wrap_spawn(f, Arc::clone(&finished), Arc::clone(&agent), self.named))?;
+        let inner = self.inner.spawn(wrap_spawn(f, Arc::clone(&finished), Arc::clone(&agent), self.named, seq))?;
         #[cfg(feature = "shuttle-backend")]
         {
             let _ = agent.set(usize::from(inner.thread().id()));
